@@ -10,7 +10,8 @@ HOOK_COMMITS = ['ffbf043', 'f180a38', 'fef748c']
 
 PROPS["C19"] = dict(
     level="exploration",
-    runs=lambda tier: [Run(C(), "harness/p_c19.c", group="c19"), Run(C(sse2=0, simd="native", **MINCACHE), "harness/p_c19.c", group="c19")],
+    runs=lambda tier: [Run(C(), "harness/p_c19.c", group="c19"), Run(C(sse2=0, simd="native", **MINCACHE), "harness/p_c19.c", group="c19"),
+                       Run(C(), "harness/p_c19.c", ["--mode=reinit"], group="after-fini-init")],
     rule="finite domains enumerated completely: all 2^k code-book entries k=1..16; mzd_make_table for k=1..10(12) x 20 widths x start columns x row offsets x 4 fills, every x in 0..2^k-1 compared with the reference sum of the selected rows; parity64 on all 4096 single-bit buffers, all bit pairs per word, dense buffers; all (n,offset) masks; bit reversal; lesser_LSB on all pairs of {0, single, two-bit}; spread/shrink for every strictly increasing Q of length<=4 and progressions of length 5..16. 'evaluations' counts individual table entries / function evaluations; a case is non-trivial when its input is not all-zero; distinct = distinct (input digest, parameters).",
     level_text="Complete enumeration of the finite domains the statement names (exhaustive:true): every code-book entry, every table index, every mask argument, complete bit bases of the linear word kernels - executed on the real functions and compared with a bit-loop reference.",
     level_note="Trusted: the harness reference loops, clang 14 / x86-64 code generation. Linear kernels (parity, reversal, spread/shrink) are checked on complete bases plus fixed dense words, not on all 2^64 words.",
